@@ -37,15 +37,22 @@ def parseCall (j : Json) : Except String (List Call) := do
   else if op == "action_drop" then return [.objDrop .action (← s)]
   else if op == "req_drop" then return [.objDrop .request (← s)]
   else if op == "filter_drop" then return [.objDrop .filter (← s)]
-  else if op == "headers" then
+  else if op == "hmap_new" || op == "headers" then
     let hdrs ← (match j.getObjVal? "hdrs" with
       | .ok (.arr a) => a.toList.mapM fun p => do
-          let q ← (fromJson? p : Except String (Array Nat))
+          let q ← (fromJson? p : Except String (Array Json))
           if q.size != 2 then throw "hdrs pair"
-          pure (q[0]!, q[1]!)
+          let one (x : Json) : Except String (Option Nat) := match x with
+            | .null => pure none
+            | v => (fromJson? v : Except String Nat).map some
+          pure (← one q[0]!, ← one q[1]!)
       | _ => pure [])
+    if op == "hmap_new" then return [.hmapNew hdrs]
     return [.headers (← Drv.nat? j "a") hdrs]
   else if op == "hlist_free" then return [.hlistFree (← s)]
+  else if op == "hmap_read" then
+    let _ ← s
+    return []   -- `header_map_to_http_headers`: a borrow of every node (content checked by the harness oracle)
   else if op == "filter_new" then return [.filterNew (← Drv.nat? j "a") (← Drv.bool? j "ok")]
   else if op == "filter_feed" then return [.filterFeed (← Drv.nat? j "f") (← Drv.nat? j "b") (← Drv.unhex (← Drv.str? j "out"))]
   else if op == "filter_close" then return [.filterClose (← Drv.nat? j "f") (← Drv.unhex (← Drv.str? j "out"))]
@@ -69,7 +76,9 @@ def ownedOf (h : Heap) : Handle → List Json
   | .buffer b => match b.id with | some id => [cellSize h id] | none => []
   | .cstr id _ => match id with | some id => [cellSize h id] | none => []
   | .obj _ id => match id with | some id => [cellSize h id] | none => []
-  | .hlist nodes => nodes.flatMap fun (n, (a, _), (b, _)) => [cellSize h n, cellSize h a, cellSize h b]
+  | .hlist nodes => nodes.flatMap fun (n, a, b) =>
+      [cellSize h n, (match a with | some (i, _) => cellSize h i | none => Json.null),
+        (match b with | some (i, _) => cellSize h i | none => Json.null)]
   | .tproxies o i => [cellSize h o, cellSize h i]
 
 def faultName : Fault → String
